@@ -134,7 +134,12 @@ class FakeServer(object):
         self.timeout = timeout
 
 
-def make_handlers(log, err=True):
+ARGS_H, ARGS_E = ("hx", 7), ("ex",)
+
+
+def make_handlers(log, err=True, args=False, barrier=None):
+    """args: the handlers are registered with extra constructor arguments, which their replies carry;
+       barrier: every regular handler waits in reply() until all of them are in reply() (overlapping invocations)"""
     import_hl7apy()
     from hl7apy.mllp import AbstractHandler, AbstractErrorHandler, UnsupportedMessageType, InvalidHL7Message
 
@@ -146,27 +151,42 @@ def make_handlers(log, err=True):
             return "?"
 
     class H(AbstractHandler):
+        def __init__(self, message, *a):
+            super(H, self).__init__(message)
+            self.a = a
+
         def reply(self):
+            if barrier is not None:
+                try:
+                    barrier.wait(3)
+                except threading.BrokenBarrierError:
+                    pass
             c = ctrl_of(self.incoming_message)
             log.append((c, "H", self.incoming_message))
-            return "\x0bACK|%s|H\r\x1c\r" % c
+            return "\x0bACK|%s|H%s\r\x1c\r" % (c, "".join("|%s" % x for x in self.a))
 
     class E(AbstractErrorHandler):
+        def __init__(self, exc, message, *a):
+            super(E, self).__init__(exc, message)
+            self.a = a
+
         def reply(self):
             c = ctrl_of(self.incoming_message)
             k = ("ERR:Unsupported" if isinstance(self.exc, UnsupportedMessageType) else
                  "ERR:Invalid" if isinstance(self.exc, InvalidHL7Message) else "ERR:" + type(self.exc).__name__)
             log.append((c, k, self.incoming_message))
-            return "\x0bACK|%s|%s\r\x1c\r" % (c, k)
-    h = {"ADT^A01^ADT_A01": (H,), "ADT^A01": (H,)}
+            return "\x0bACK|%s|%s%s\r\x1c\r" % (c, k, "".join("|%s" % x for x in self.a))
+    ah = ARGS_H if args else ()
+    h = {"ADT^A01^ADT_A01": (H,) + ah, "ADT^A01": (H,) + ah}
     if err:
-        h["ERR"] = (E,)
+        h["ERR"] = (E,) + (ARGS_E if args else ())
     return h
 
 
-def expected_reply(ctrl, kind):
+def expected_reply(ctrl, kind, args=False):
     k = {"reg": "H", "unreg": "ERR:Unsupported", "nonhl7": "ERR:Invalid"}[kind]
-    return ("\x0bACK|%s|%s\r\x1c\r" % (ctrl, k)).encode()
+    a = (ARGS_H if kind == "reg" else ARGS_E) if args else ()
+    return ("\x0bACK|%s|%s%s\r\x1c\r" % (ctrl, k, "".join("|%s" % x for x in a))).encode()
 
 
 def run_fake(case):
@@ -183,7 +203,7 @@ def run_fake(case):
     delivered = b"".join(chunks)
     log = []
     conn = FakeConn(chunks, case["fault"])
-    server = FakeServer(make_handlers(log, case["err"]))
+    server = FakeServer(make_handlers(log, case["err"], case.get("args", False)))
     crashed = ""
     try:
         MLLPRequestHandler(conn, ("127.0.0.1", 1), server)
@@ -193,7 +213,8 @@ def run_fake(case):
     return {"k": "conn", "mode": "fake", "family": case["family"], "kind": kind, "err": case["err"], "fault": case["fault"],
             "nchunks": len(chunks), "script": to_syms(data), "delivered": to_syms(delivered),
             "calls": [[k, to_syms(m.encode())] for (c, k, m) in log], "out": list(b"".join(conn.sent)),
-            "reply": list(expected_reply(case["ctrl"], kind)), "closed": conn.closed, "crashed": crashed,
+            "reply": list(expected_reply(case["ctrl"], kind, case.get("args", False))), "closed": conn.closed, "crashed": crashed,
+            "args": bool(case.get("args", False)),
             "reads": len(conn.log)}
 
 
@@ -226,7 +247,7 @@ def fake_cases(rnd, quick):
             n += 1
             ctrl = "C%d" % n
             for err in ((True,) if quick and rnd.random() < 0.7 else (True, False)):
-                cases.append({"ctrl": ctrl, "family": fam, "cuts": cs, "fault": "none", "err": err})
+                cases.append({"ctrl": ctrl, "family": fam, "cuts": cs, "fault": "none", "err": err, "args": n % 3 == 0})
             # faults after each delivered chunk (close / stall)
             nch = len(set(c for c in cs if 0 < c < L)) + 1
             for upto in range(0, nch + 1):
@@ -245,8 +266,12 @@ def tcp_round(rnd, nclients, timeout_s, round_id):
     from hl7apy.mllp import MLLPServer
     log = []
     err = rnd.random() < 0.85
-    server = MLLPServer("127.0.0.1", 0, make_handlers(log, err), timeout=timeout_s)
+    args = rnd.random() < 0.5
+    overlap = (round_id % 3 == 0) and nclients > 1     # every third round: the handlers' invocations are made to overlap
+    barrier = threading.Barrier(nclients) if overlap else None
+    server = MLLPServer("127.0.0.1", 0, make_handlers(log, err, args, barrier), timeout=timeout_s)
     server.daemon_threads = True
+    server.handle_error = lambda request, client_address: None      # (socketserver would print the traceback of undecodable input)
     port = server.server_address[1]
     th = threading.Thread(target=server.serve_forever, kwargs={"poll_interval": 0.02})
     th.daemon = True
@@ -257,12 +282,14 @@ def tcp_round(rnd, nclients, timeout_s, round_id):
     for i in range(nclients):
         ctrl = "R%dK%d" % (round_id, i)
         fam = rnd.choice(fams if rnd.random() < 0.5 else ["good", "good_short", "unregistered", "nonhl7", "good_noterm"])
+        if overlap:
+            fam = "good"
         data, kind = scripts(ctrl)[fam]
         k = rnd.randint(0, 5)
         cuts = sorted(rnd.sample(range(1, len(data)), min(k, max(0, len(data) - 1)))) if len(data) > 2 else []
         if rnd.random() < 0.3 and len(data) > 4:
             cuts = sorted(set(cuts + [rnd.choice([1, 2, 3, len(data) - 1, len(data) - 2])]))
-        fault = rnd.choice(["none"] * 6 + ["close", "stall"])
+        fault = rnd.choice(["none"] * 6 + ["close", "stall"]) if not overlap else "none"
         bounds = [0] + cuts + [len(data)]
         chunks = [data[a:b] for a, b in zip(bounds, bounds[1:])]
         upto = rnd.randint(0, len(chunks)) if fault != "none" else len(chunks)
@@ -319,8 +346,8 @@ def tcp_round(rnd, nclients, timeout_s, round_id):
         calls = [[k, to_syms(m.encode())] for (c, k, m) in list(log) if c == ctrl]
         events.append({"k": "conn", "mode": "tcp", "family": fam, "kind": kind, "err": err, "fault": fault,
                        "nchunks": len(chunks), "script": to_syms(data), "delivered": to_syms(b"".join(chunks)),
-                       "calls": calls, "out": list(out), "reply": list(expected_reply(ctrl, kind)), "closed": closed,
-                       "crashed": "", "reads": 0, "clients": nclients})
+                       "calls": calls, "out": list(out), "reply": list(expected_reply(ctrl, kind, args)), "closed": closed,
+                       "crashed": "", "reads": 0, "clients": nclients, "args": args, "overlap": overlap})
     return events
 
 
